@@ -182,10 +182,64 @@ class Engine:
         for c in idx.classes.values():
             self.pkg_method_names |= set(c.methods)
         self.attr_types = self._attr_types()
+        self.fn_args = self._function_arguments()
         self.changed = False
         self.iterations = 0
         self.n_calls_resolved = 0
         self.n_calls_total = 0
+
+    # ------------------------------------------------------------------------------ functions passed as arguments
+    def _function_arguments(self) -> Dict[Tuple[str, str], Optional[List[FunctionInfo]]]:
+        """(qualified function, parameter) -> the package functions passed for that parameter, for PRIVATE functions that
+        CALL one of their parameters and whose every call site in the package (matched by callee name - a superset of the
+        real callers) passes a plain module-level function there.  None / absent = open (some caller passes something
+        else): the call of the parameter stays an unknown callable (assumption A2)."""
+        idx = self.idx
+        wanted: Dict[str, List[Tuple[FunctionInfo, str, int]]] = {}  # callee name -> [(fn, param, positional index at the call)]
+        for f in idx.functions:
+            if isinstance(f.node, ast.Lambda) or not f.name.startswith("_") or f.name.startswith("__"):
+                continue
+            a = f.node.args
+            names = [x.arg for x in list(a.posonlyargs) + list(a.args)]
+            is_method = f.cls is not None and f.parent is None and not f.is_staticmethod()
+            called = {n.func.id for n in ast.walk(f.node) if isinstance(n, ast.Call) and isinstance(n.func, ast.Name)}
+            stored = {t.id for n in ast.walk(f.node) if isinstance(n, (ast.Assign, ast.AugAssign, ast.For, ast.AnnAssign))
+                      for t in ast.walk(n.targets[0] if isinstance(n, ast.Assign) else n.target) if isinstance(t, ast.Name)}
+            for i, pn in enumerate(names):
+                if (is_method and i == 0) or pn not in called or pn in stored:
+                    continue
+                wanted.setdefault(f.name, []).append((f, pn, i - (1 if is_method else 0)))
+        out: Dict[Tuple[str, str], Optional[List[FunctionInfo]]] = {}
+        if not wanted:
+            return out
+        seen_site: Set[Tuple[str, str]] = set()
+        for g in idx.functions:
+            for n in ast.walk(g.node):
+                if not isinstance(n, ast.Call):
+                    continue
+                cname = n.func.attr if isinstance(n.func, ast.Attribute) else (n.func.id if isinstance(n.func, ast.Name) else None)
+                if cname not in wanted:
+                    continue
+                for (f, pn, pos) in wanted[cname]:
+                    key = (f.qualname, pn)
+                    arg = n.args[pos] if pos < len(n.args) and not any(isinstance(x, ast.Starred) for x in n.args[:pos + 1]) else None
+                    if arg is None:
+                        for k in n.keywords:
+                            if k.arg == pn:
+                                arg = k.value
+                    tgt = None
+                    if isinstance(arg, ast.Name):
+                        q = idx.resolve_name(g.module, arg.id)
+                        if q and q in idx.func_by_qual:
+                            tgt = idx.func_by_qual[q]
+                    seen_site.add(key)
+                    if tgt is None:
+                        out[key] = None
+                    elif key not in out:
+                        out[key] = [tgt]
+                    elif out[key] is not None and tgt not in out[key]:
+                        out[key].append(tgt)
+        return {k: v for k, v in out.items() if v}
 
     # ------------------------------------------------------------------------------ attribute typing
     def _attr_types(self) -> Dict[str, str]:
@@ -422,7 +476,16 @@ class FuncAnalysis:
             env[x.arg] = self._param_av(x.arg, T_SCALAR if x.arg in self.scalar_params else self._param_ty(x.arg))
         if a.vararg:
             v = self._param_av(a.vararg.arg, T_UNK)
-            env[a.vararg.arg] = AV(v.prov, T_CONT, T_UNK, v.oprov)
+            ety = T_UNK
+            if a.vararg.annotation is not None:
+                # A5: `*tables: Dict[Callable, str]` - every element is a dictionary (not a tensor, not an operator)
+                ann = norm(a.vararg.annotation)
+                if "Tensor" not in ann and "LinearOperator" not in ann and "Any" not in ann:
+                    if ann.split("[")[0].split(".")[-1] in ("Dict", "dict", "Mapping", "MutableMapping", "List", "list", "Set", "set"):
+                        ety = T_CONT
+                    elif ann in ("int", "str", "bool", "float", "torch.dtype", "torch.device"):
+                        ety = T_SCALAR
+            env[a.vararg.arg] = AV(v.prov, T_CONT, ety, v.oprov)
         if a.kwarg:
             v = self._param_av(a.kwarg.arg, T_UNK)
             env[a.kwarg.arg] = AV(v.prov, T_CONT, T_UNK, v.oprov)
@@ -573,7 +636,17 @@ class FuncAnalysis:
             self.block(st.orelse, e2)
             if g is not None:
                 self.guards.pop()
-            self._merge(env, e1, e2)
+            t1 = bool(st.body) and isinstance(st.body[-1], (ast.Return, ast.Raise))
+            t2 = bool(st.orelse) and isinstance(st.orelse[-1], (ast.Return, ast.Raise))
+            if t1 and not t2:
+                # `if c: ... return` : what follows runs only with the else-environment (and its narrowing)
+                env.clear()
+                env.update(e2)
+            elif t2 and not t1:
+                env.clear()
+                env.update(e1)
+            else:
+                self._merge(env, e1, e2)
         elif isinstance(st, (ast.For, ast.AsyncFor)):
             it = self.ev(st.iter, env)
             for _ in range(3):
@@ -1104,6 +1177,10 @@ class FuncAnalysis:
     def _call_name(self, name: str, e, args, kwargs, allargs, env) -> AV:
         eng = self.eng
         if name in env and env[name].ty != T_CALL:
+            passed = eng.fn_args.get((self.fn.qualname, name))
+            if passed:
+                # a private function that calls its parameter, and every caller hands it a package function
+                return self._apply_summary(list(passed), None, e, args, kwargs, env)
             return self._call_unknown_callable(env[name], allargs)
         nested = self._find_nested(name)
         if nested is not None:
